@@ -175,6 +175,9 @@ def jobs(tier):
     for name, grp in GROUPS.items():
         if tier == "thorough" or name in ("PIPES", "CONFIG"):
             pairs |= {(x, y) for x in grp for y in grp}
+    if tier == "quick":
+        pairs |= {(x, "ack_on") for x in ("dyn_false", "dyn_int", "set_dyn_off", "dyn_list3")} | {("ack_on", "dyn_false"), ("ack_on", "ack_off"),
+                                                                                                  ("auto_ack_false", "ack_on")}
     seqs += sorted(pairs) + trip
     if tier == "thorough":
         g = GROUPS["PIPES"]
